@@ -93,3 +93,56 @@ class NameTableRoundTrip(Contract):
         return And(*cs)
 
     ensures = [prop("sorted-records-point-at-their-strings-and-read-back", lambda a, old, r: NameTableRoundTrip._post(a, r))]
+
+
+@contract
+class NameCompileIsRepeatable(Contract):
+    """name.compile twice gives the same bytes, and what the table answers afterwards is what it
+    answered before: the same records (as a multiset) with the same strings, and getName's answer
+    for every (nameID, platform, encoding, language) of a record - compile may sort the list and
+    annotate records with storage offsets, which no reader of the table sees."""
+    module = "fontTools.ttLib.tables._n_a_m_e"
+    qualname = "table__n_a_m_e.compile"
+    props = ("C16",)
+    variants = (2, 3)
+    level = "PF"
+
+    def rebind(self):
+        from pyvc.models import sstruct_shadow
+        return dict(std("struct", "len", "bytes", "int", "bytesjoin"), sstruct=sstruct_shadow())
+
+    def args(self, S, variant):
+        mod = self.mod
+        t = mod.table__n_a_m_e()
+        recs = []
+        for i in range(variant):
+            r = mod.NameRecord()
+            r.platformID, r.platEncID, r.langID, r.nameID = (S.int("%s%d" % (k, i), 0, 3) for k in ("plat", "enc", "lang", "name"))
+            r.string = STRINGS[i]
+            recs.append(r)
+        t.names = list(recs)
+        return dict(self=t, ttFont=None, _recs=recs, _ids=[(r.platformID, r.platEncID, r.langID, r.nameID) for r in recs])
+
+    def requires(self, a):
+        # distinct keys: which of two records with one key getName returns is not specified
+        ids = a._ids
+        return And(*[Or(*[Not(eq(x, y)) for x, y in zip(ids[i], ids[j])]) for i in range(len(ids)) for j in range(i + 1, len(ids))])
+
+    def call(self, f, a):
+        first = f(a.self, a.ttFont)
+        second = f(a.self, a.ttFont)
+        answers = [a.self.getName(ids[3], ids[0], ids[1], ids[2]) for ids in a._ids]
+        return first, second, answers, list(a.self.names)
+
+    @staticmethod
+    def _post(a, r):
+        first, second, answers, names = r
+        b1, b2 = _items(first), _items(second)
+        if len(b1) != len(b2) or len(names) != len(a._recs) or not all(any(x is y for y in names) for x in a._recs):
+            return False
+        cs = [eq(x, y) for x, y in zip(b1, b2)]
+        cs += [ans is rec for ans, rec in zip(answers, a._recs)]
+        cs += [bytes(_items(rec.string)) == STRINGS[i] for i, rec in enumerate(a._recs)]
+        return And(*cs)
+
+    ensures = [prop("second-compile-identical-and-table-answers-unchanged", lambda a, old, r: NameCompileIsRepeatable._post(a, r))]
